@@ -591,7 +591,7 @@ is the property's expectation for that pixel.  (The reassembly itself, for every
 `region_assembly` / `tile_then_read`.) -/
 theorem C01_roundtrip_tiled (codec : Option Codec) (hcodec : ∀ c, codec = some c → ∀ x, c.dec (c.enc x) = x)
     (R C tr tc : Nat) (htr : 1 ≤ tr) (htc : 1 ≤ tc) (t : SegType) (segs : List Nat) (mfv : Nat) (omt : Bool) (m : Mask)
-    (arr : Mask) (ov : Overlap) (hcm : castMask segs t m = .ok (arr, ov)) (hcs : checkSegs t segs = .ok ())
+    (arr : Mask) (ov : Overlap) (hcm : castMask segs t m = .ok (arr, ov))
     (o : SegObj) (hb : buildTiled codec R C tr tc t segs mfv omt m = .ok o) :
     ∃ mpl out, m.plane? 0 = some mpl ∧
       readBySource codec o (List.range (tilesAlong R tr * tilesAlong C tc)) .assertEmpty = .ok out ∧
@@ -599,7 +599,7 @@ theorem C01_roundtrip_tiled (codec : Option Codec) (hcodec : ∀ c, codec = some
         ∀ r c, r < R → c < C →
           ((out[(r / tr) * tilesAlong C tc + c / tc]?.bind (·[j]?)).bind (·[(r % tr) * tc + c % tc]?))
             = some (e.getD (r * C + c) 0) :=
-  tiled_roundtrip codec hcodec R C tr tc htr htc t segs mfv omt m arr ov hcm hcs o hb
+  tiled_roundtrip codec hcodec R C tr tc htr htc t segs mfv omt m arr ov hcm o hb
 
 /-- (10e) **Bridge for (10d)** (T6, T7b): the tiles `tileMask` cuts by plain list arithmetic (`tilesOf`) are exactly what the
 source's own functions produce, as C04 models them from the regenerated expressions: `get_tile_array` (bounds, padding:
